@@ -489,6 +489,28 @@ func c15fanOutSite(e *c15env, site c15site) {
 		}
 		return cache[h]
 	}
+	// the session functions that hand a packet to the client's queue (publish and, when delivery is split by
+	// QoS level, its siblings)
+	deliverers := map[types.Object]bool{}
+	for _, g := range e.methodsOf(e.sessT, func(g *flow.Func, sig *types.Signature) bool { return true }) {
+		if g == e.doResend || g == e.bgResend {
+			continue
+		}
+		for _, h := range e.reachSync(g, 2) {
+			if e.writePacket != nil && h.Body == e.writePacket.Body {
+				continue
+			}
+			ast.Inspect(h.Body, func(n ast.Node) bool {
+				if snd, ok := n.(*ast.SendStmt); ok && e.selects(snd.Chan, e.writeChF) {
+					deliverers[e.obj(g)] = true
+				}
+				return true
+			})
+		}
+		if len(e.writesIn(e.reachSync(g, 2))) > 0 {
+			deliverers[e.obj(g)] = true
+		}
+	}
 	type bad struct {
 		st  *flow.State
 		why string
@@ -522,6 +544,13 @@ func c15fanOutSite(e *c15env, site c15site) {
 		OnCall: func(st *flow.State, call *ast.CallExpr, callee types.Object, deferred bool) {
 			if call == pub {
 				st.Set("ev:published", flow.True)
+				return
+			}
+			// delivery split over several session functions (one per QoS level): a call of any of them delivers
+			if g := e.fnAt(call.Pos()); g != nil {
+				if o, _ := c15callee(g, call); o != nil && deliverers[o] {
+					st.Set("ev:published", flow.True)
+				}
 			}
 		},
 	})
